@@ -335,6 +335,18 @@ theorem C14_provider_signs_only_if (H : Bytes → Bytes) (t t' : Ticket) (bid : 
             · simp [hk] at hok
   · simp [h1] at hok
 
+/-- In particular the offer in the ticket is signed by the provider's OWN account key: the stored offer
+signature is exactly the (ideal) signature of `acctKey` on the offer digest of the ticket as given. -/
+theorem C14_provider_offer_signed_by_own_key (H : Bytes → Bytes) (t t' : Ticket) (bid : BidTerms)
+    (acctKey k : Key) (hok : validateAndSign H t bid acctKey k = (t', none)) :
+    ∃ p, offerPreimage t = .ok p ∧ t.sigOffer = some ⟨acctKey, H p⟩ := by
+  obtain ⟨_, _, hv, hk, _⟩ := C14_provider_signs_only_if H t t' bid acctKey k hok
+  obtain ⟨_, pk, p, hpk, hp, hs⟩ := (verifyOffer_ok_iff H t).1 hv
+  rw [hk] at hpk
+  injection hpk with hpk
+  subst hpk
+  exact ⟨p, hp, hs⟩
+
 /-- …and only if the bid repeats the channel parameters of the offer (`CheckOfferMatchesBid`): lease duration
 (unless the offer leaves it open with 0), push amount = self channel balance, unannounced and zero-conf
 flags. -/
